@@ -171,7 +171,7 @@ def run(ctx):
     write(sd, "sim.cfg", spec="GenSpec", log="LogAppend", defects="AllOn", deploys="TRUE", balances="TRUE", base="0, 2", maxtr=6,
           maxdepth=3, bound=14, rest="ACTION_CONSTRAINT EmitFullFail")
     beh2 = ctx.path("sim.ndjson")
-    ctx.tlc(sd, "MC_VmContext", "sim.cfg", simulate=300 if q else 3000, depth=14, timeout=900, behaviours_out=beh2,
+    ctx.tlc(sd, "MC_VmContext", "sim.cfg", simulate=150 if q else 3000, depth=14, timeout=900, behaviours_out=beh2,
             count=False)
     h2 = ctx.vh(exe, ["replay", beh2], timeout=1500)
     for k, n in (("b", "behaviours"), ("s", "steps"), ("d", "distinct"), ("f", "failed_inner_calls"), ("dr", "drifts")):
